@@ -112,6 +112,35 @@ func init() {
 		}
 		return fallThrough{}
 	}
+	// strings.TrimSpace on partly symbolic text: leading and trailing bytes are classified one
+	// by one (ASCII white space: \t \n \v \f \r and space); a byte >= 0x80 at a boundary
+	// would need Unicode decoding and ends the path as unsupported.
+	intrinsics["strings.TrimSpace"] = func(in *Interp, fr *frame, call *ssa.CallCommon, args []Value) Value {
+		s := args[0].(Str)
+		if s.IsConc() {
+			return Str{S: strings.TrimSpace(s.S)}
+		}
+		if s.Opq != nil {
+			in.unsupported("strings.TrimSpace of opaque text (%s)", s.Opq.What)
+		}
+		c := in.Ctx
+		bs := in.strBytes(s)
+		isSpace := func(b *sym.Term) bool {
+			if in.Path.Branch(c.Cmp(sym.OpUle, c.BV(8, 0x80), b)) {
+				in.unsupported("strings.TrimSpace: non-ASCII byte at a boundary")
+			}
+			sp := c.Or(c.Eq(b, c.BV(8, ' ')), c.And(c.Cmp(sym.OpUle, c.BV(8, '\t'), b), c.Cmp(sym.OpUle, b, c.BV(8, '\r'))))
+			return in.Path.Branch(sp)
+		}
+		start, end := 0, len(bs)
+		for start < end && isSpace(bs[start]) {
+			start++
+		}
+		for end > start && isSpace(bs[end-1]) {
+			end--
+		}
+		return in.mkStr(bs[start:end])
+	}
 	intrinsics["strconv.Itoa"] = func(in *Interp, fr *frame, call *ssa.CallCommon, args []Value) Value {
 		return in.decimalOf(term(args[0]), true)
 	}
